@@ -153,16 +153,8 @@ def check_reject(model, R, ops):
             if isinstance(n, ast.If) and not n.orelse and n.body and isinstance(n.body[-1], ast.Return) and all(cs is not None and cfg.dominates(n, cs) for cs in call_stmts):
                 R.ob('C05.REJECT', f.qualname, 'early return `%s`' % norm(n.test)[:60], False, 'an argument combination the op cannot honour must raise, not be answered with a fallback value', '%s:%d' % (f.mod.relpath, n.lineno))
         for mapping, raises_when, what in REQUIRED_GUARDS.get(f.qualname, []):
-            atoms = sorted({a for a, _ in mapping.values()})
-            found = False
-            for g, tst in [(g, t) for g in guards for t in (g.test, inline_expr(f.node, g.test))]:
-                try:
-                    if all(E.eval_bool(tst, E.atom_valuation(mapping, dict(zip(atoms, vals)))) == raises_when(dict(zip(atoms, vals))) for vals in itertools.product((False, True), repeat=len(atoms))) \
-                            and all(cs is not None and cfg.dominates(g, cs) for cs in call_stmts):
-                        found = True
-                except Incomplete:
-                    continue
-            R.ob('C05.REJECT', f.qualname, 'required: ' + what, found, 'the documented rejection `%s` is missing, weakened or no longer dominates the kernel call' % what, f.loc)
+            found, why = E.guard_table(f, cfg, mapping, raises_when, [cs for cs in call_stmts if cs is not None])
+            R.ob('C05.REJECT', f.qualname, 'required: ' + what, found, 'the documented rejection `%s` is missing, weakened or no longer dominates the kernel call: %s' % (what, why), f.loc)
 
 
 # ------------------------------------------------------------------------------------------------ OPERATORS
@@ -227,7 +219,18 @@ def check_iter(model, R):
     R.ob('C05.ITER', it.qualname, 'no cursor stored on the tensor (%s)' % [norm(s) for s in stores], not stores, 'iteration state on the instance is shared by all iterations', it.loc)
     if gen:
         loops = [n for n in body_walk(it.node) if isinstance(n, ast.For)]
-        ok = len(loops) == 1 and norm(loops[0].iter) in ('range(len(self))', 'range(self.shape[0])', 'range(len(self.data))') and any(isinstance(y, ast.Yield) and norm(y.value) == 'self[%s]' % norm(loops[0].target) for y in ast.walk(loops[0]))
+        LEN = ('len(self)', 'self.shape[0]', 'len(self.data)')
+        ok = len(loops) == 1 and norm(loops[0].iter) in tuple('range(%s)' % l for l in LEN) and any(isinstance(y, ast.Yield) and norm(y.value) == 'self[%s]' % norm(loops[0].target) for y in ast.walk(loops[0]))
+        # counter idiom:  i = 0 ; while i < len(self): yield self[i] ; i += 1      (the bound may be hoisted into a local)
+        wl = [n for n in body_walk(it.node) if isinstance(n, ast.While)]
+        if not ok and len(wl) == 1 and not loops and isinstance(wl[0].test, ast.Compare) and len(wl[0].test.ops) == 1 and isinstance(wl[0].test.ops[0], ast.Lt) and isinstance(wl[0].test.left, ast.Name):
+            w = wl[0]
+            i = w.test.left.id
+            bound = norm(inline_expr(it.node, w.test.comparators[0]))
+            inits = [n for n in body_walk(it.node) if isinstance(n, ast.Assign) and norm(n.targets[0]) == i]
+            incs = [n for n in w.body if isinstance(n, ast.AugAssign) and norm(n.target) == i and isinstance(n.op, ast.Add) and norm(n.value) == '1']
+            ys = [n for n in w.body if isinstance(n, ast.Expr) and isinstance(n.value, ast.Yield) and norm(n.value.value) == 'self[%s]' % i]
+            ok = bound in LEN and len(inits) == 1 and norm(inits[0].value) == '0' and len(incs) == 1 and len(ys) == 1 and len(w.body) == 2 and w.body.index(ys[0]) < w.body.index(incs[0]) and not w.orelse
         R.ob('C05.ITER', it.qualname, 'yields self[i] for i in range(len(self))', ok, 'iteration runs over the first dimension in order', it.loc)
 
 
